@@ -34,6 +34,7 @@ import (
 	"os/exec"
 	"os/user"
 	"path/filepath"
+	"regexp"
 	"sort"
 	"strconv"
 	"strings"
@@ -202,6 +203,7 @@ type c12World struct {
 	outF, errF, inF        *os.File
 	before                 map[string]string
 	realPid, realHost, uid string
+	realUser               string // name of the user the harness runs as
 
 	mu  sync.Mutex
 	log []string // merged call log of all recording OSes, in call order
@@ -243,6 +245,19 @@ func (w *c12World) buildTree() {
 	os.MkdirAll(filepath.Join(w.T, "cwd"), 0o755)
 	os.WriteFile(filepath.Join(w.T, "dir", "a.txt"), []byte("REAL-FILE-A\nline2\n"), 0o644)
 	os.WriteFile(filepath.Join(w.T, "dir", "b.txt"), []byte("REAL-FILE-B\n"), 0o644)
+	// second part (VirtualOS sessions): the relative paths the sessions use exist, with real content,
+	// below both working directories the real process is put into; a second temp dir and two home dirs
+	for _, cwd := range []string{"cwd", "cwd2"} {
+		for _, d := range []string{"work/data", "data", "in", "sub"} {
+			os.MkdirAll(filepath.Join(w.T, cwd, d), 0o755)
+		}
+		for _, f := range []string{"a.txt", "b.txt", "c.txt", "notes.txt", "work/a.txt", "work/data/a.txt", "data/a.txt", "in/c.txt"} {
+			os.WriteFile(filepath.Join(w.T, cwd, f), []byte("REAL-FILE-BELOW-"+cwd+"\n"), 0o644)
+		}
+	}
+	for _, d := range []string{"tmp1", "tmp2", "home1/.cache", "home1/.config", "home2/.cache", "home2/.config"} {
+		os.MkdirAll(filepath.Join(w.T, d), 0o755)
+	}
 }
 
 func c12Snapshot(root string, skip map[string]bool) map[string]string {
@@ -312,6 +327,11 @@ func c12NewWorld() (*c12World, error) {
 	w.realPid = strconv.Itoa(os.Getpid())
 	w.realHost, _ = os.Hostname()
 	w.uid = strconv.Itoa(os.Getuid())
+	if u, err := user.Current(); err == nil {
+		w.realUser = u.Username
+	} else {
+		w.realUser = "nobody"
+	}
 	w.before = w.snap()
 	return w, nil
 }
@@ -1763,7 +1783,14 @@ func c12_runC12(e *Env) {
 		"clone-call, imported-module function and imported-module body to depth 0-5 around one of the operations (every exported function of the " +
 		"os, filepath and fmt modules, the shell-style builtins, print/printf, every file method, with argument shapes incl. error paths); " +
 		"directed part: every operation x every single context kind x both routes x {top-level run, cloned VM call}; random part seeded. " +
-		"Non-trivial when the operation performs >= 1 OS call in the model; distinct by the (history, path, operation) triple"
+		"Non-trivial when the operation performs >= 1 OS call in the model; distinct by the (history, path, operation) triple. " +
+		"Second part (the OS implementation risor ships for hosts): a case is a session = (VirtualOS configuration {every option set, only mounts}, " +
+		"route {risor.WithOS, OS in the context}, 1-7 script operations): os.chdir/cd, os.setenv/unsetenv with relative, absolute, dotted, empty and " +
+		"non-existent arguments, followed by every observing operation (os.getwd, filepath.abs, getenv, environ, temp/home/cache/config dir, hostname, " +
+		"pid, uid, args, user lookups, every file operation with relative and absolute paths over two mounts, mkdir_temp, stdio); every session is run " +
+		"twice, with the real process in two different working directories / environments / temp / home directories holding look-alike files; " +
+		"directed part: every state-changing operation x every argument x every observer, every operation alone; random part seeded; a violating " +
+		"session is shrunk step by step before it is reported. Non-trivial when the model predicts >= 1 answer"
 	w, err := c12NewWorld()
 	if err != nil {
 		e.R.Note("cannot create the sentinel world: %v", err)
@@ -1949,6 +1976,8 @@ func c12_runC12(e *Env) {
 		}
 		c12Judge(e, w, c, exp, res, -1)
 	}
+	stage("VirtualOS sessions")
+	c12RunVirtualSessions(e, w)
 	if c12Retries > 0 {
 		e.R.Note("%d case(s) ran into the 10 s bound and were re-run with a 90 s bound", c12Retries)
 	}
@@ -2027,4 +2056,791 @@ func c12RunChildren(e *Env, w *c12World, cases []c12Case, idx []int, out map[int
 			idx = idx[len(batch):]
 		}
 	}
+}
+
+// ================================================================ second part: VirtualOS sessions
+//
+// The first part shows on which os.OS object every call of a script lands.  What hosts hand to
+// risor.WithOS is, in practice, risor's own os.VirtualOS; the mediation is empty if that object
+// answers a call by asking the real process (its working directory, environment, temp dir, home,
+// pid, host name, users, files).  A session is a short script of state-changing and observing
+// operations evaluated under a plain VirtualOS (two mounts over recording in-memory file systems).
+//
+// Verdicts.  Impl correspondence: every answer (and every path handed to a mount's file system)
+// equals the Lean model of VirtualOS (lean/RisorModel/C12/Virtual.lean).  Spec, on the real results:
+// the session is run twice, with the real process in two different states (working directory,
+// environment, TMPDIR, HOME, look-alike files below both working directories); the answers and the
+// paths the mounts receive must be the same in both, contain no value of the real process, and the
+// real process must be unchanged afterwards.
+
+type c12VOp struct {
+	name   string
+	expr   string
+	model  string   // operation of the Lean model (V.VOp)
+	args   []string // argument pools: D dir, P path, K key, V value, PAT, TD, U, UID, G, GID
+	change bool     // changes the state of the VirtualOS
+	both   bool     // two-path operation that resolves both paths before touching a file system
+}
+
+var c12VOps = []c12VOp{
+	{"os.chdir", "os.chdir({0})", "chdir", []string{"D"}, true, false},
+	{"cd", "cd({0})", "chdir", []string{"D"}, true, false},
+	{"os.setenv", "os.setenv({0}, {1})", "setenv", []string{"K", "V"}, true, false},
+	{"setenv", "setenv({0}, {1})", "setenv", []string{"K", "V"}, true, false},
+	{"os.unsetenv", "os.unsetenv({0})", "unsetenv", []string{"K"}, true, false},
+	{"unsetenv", "unsetenv({0})", "unsetenv", []string{"K"}, true, false},
+	{"os.getwd", "os.getwd()", "getwd", nil, false, false},
+	{"filepath.abs", "filepath.abs({0})", "abs", []string{"P"}, false, false},
+	{"os.getenv", "os.getenv({0})", "getenv", []string{"K"}, false, false},
+	{"getenv", "getenv({0})", "getenv", []string{"K"}, false, false},
+	{"os.environ", "\"\\n\".join(sorted(os.environ()))", "environ", nil, false, false},
+	{"os.temp_dir", "os.temp_dir()", "tempdir", nil, false, false},
+	{"os.user_home_dir", "os.user_home_dir()", "homedir", nil, false, false},
+	{"os.user_cache_dir", "os.user_cache_dir()", "cachedir", nil, false, false},
+	{"os.user_config_dir", "os.user_config_dir()", "configdir", nil, false, false},
+	{"os.hostname", "os.hostname()", "hostname", nil, false, false},
+	{"os.getpid", "os.getpid()", "getpid", nil, false, false},
+	{"os.getuid", "os.getuid()", "getuid", nil, false, false},
+	{"os.args", "\"\\n\".join(os.args())", "args", nil, false, false},
+	{"os.current_user", "os.current_user().home_dir", "lookup", nil, false, false},
+	{"os.lookup_user", "os.lookup_user({0}).home_dir", "lookup", []string{"U"}, false, false},
+	{"os.lookup_uid", "os.lookup_uid({0}).username", "lookup", []string{"UID"}, false, false},
+	{"os.lookup_group", "os.lookup_group({0}).gid", "lookup", []string{"G"}, false, false},
+	{"os.lookup_gid", "os.lookup_gid({0}).name", "lookup", []string{"GID"}, false, false},
+	{"os.read_file", "string(os.read_file({0}))", "file", []string{"P"}, false, false},
+	{"cat", "cat({0})", "file", []string{"P"}, false, false},
+	{"os.write_file", "os.write_file({0}, \"data\")", "file", []string{"P"}, false, false},
+	{"os.stat", "os.stat({0}).size", "file", []string{"P"}, false, false},
+	{"os.mkdir", "os.mkdir({0})", "file", []string{"P"}, false, false},
+	{"os.mkdir_all", "os.mkdir_all({0})", "file", []string{"P"}, false, false},
+	{"os.remove", "os.remove({0})", "file", []string{"P"}, false, false},
+	{"os.remove_all", "os.remove_all({0})", "file", []string{"P"}, false, false},
+	{"os.read_dir", "len(os.read_dir({0}))", "file", []string{"P"}, false, false},
+	{"ls", "len(ls({0}))", "file", []string{"P"}, false, false},
+	{"os.create", "os.create({0}).close()", "file", []string{"P"}, false, false},
+	{"os.open", "os.open({0}).close()", "file", []string{"P"}, false, false},
+	{"open", "open({0}).close()", "file", []string{"P"}, false, false},
+	{"create+read", "func() { f := os.create({0}); f.write(\"hello\"); f.close(); return string(os.read_file({0})) }()", "file", []string{"P"}, false, false},
+	{"filepath.walk_dir", "filepath.walk_dir({0}, func(p, d, e) { })", "file", []string{"P"}, false, false},
+	{"os.rename", "os.rename({0}, {1})", "file", []string{"P", "P"}, false, true},
+	{"os.symlink", "os.symlink({0}, {1})", "file", []string{"P", "P"}, false, true},
+	{"cp", "cp({0}, {1})", "file", []string{"P", "P"}, false, false},
+	{"cat2", "cat({0}, {1})", "file", []string{"P", "P"}, false, false},
+	{"os.read_dir0", "len(os.read_dir())", "filecwd", nil, false, false},
+	{"ls0", "len(ls())", "filecwd", nil, false, false},
+	{"os.mkdir_temp", "os.mkdir_temp({0}, {1})", "mkdirtemp", []string{"TD", "PAT"}, false, false},
+	{"print", "print(\"out\")", "opaque", nil, false, false},
+	{"printf", "printf(\"x=%d.\", 3)", "opaque", nil, false, false},
+	{"os.stdout.write", "os.stdout.write(\"x\")", "opaque", nil, false, false},
+	{"os.stderr.write", "os.stderr.write(\"e\")", "opaque", nil, false, false},
+	{"os.stdin.read", "string(os.stdin.read())", "opaque", nil, false, false},
+}
+
+func c12VOpByName(n string) *c12VOp {
+	for i := range c12VOps {
+		if c12VOps[i].name == n {
+			return &c12VOps[i]
+		}
+	}
+	return nil
+}
+
+// argument pools; "<T>" stands for the temp root of the run (the same absolute paths exist, with other
+// content, in the real file system)
+var c12VPools = map[string][]string{
+	"D": {"work", "work/data", "/work", "/work/data", "..", ".", "data", "../mnt", "/", "/mnt", "/mnt/in", "in", "nowhere/deep",
+		"work/", "./work", "", "<T>/dir", "sub"},
+	"P": {"a.txt", "data/a.txt", "work/data/a.txt", "/work/data/a.txt", "../b.txt", "./a.txt", "new.txt", "sub/new.txt", "/mnt/in/c.txt",
+		"c.txt", "in/c.txt", ".", "..", "/", "work", "data/", "notes.txt", "", "<T>/dir/a.txt", "<T>/dir/new.txt", "/mnt", "b.txt"},
+	"K":   {c12EnvKey, c12EnvNew, "OTHER", "HOME", "TMPDIR"},
+	"V":   {"newval", "", "v2"},
+	"PAT": {"pat", "x-*"},
+	"TD":  {"", "", "", "work"},
+	"U":   {"root", "alice", "<user>"},
+	"UID": {"0", "1000", "<uid>"},
+	"G":   {"root", "staff"},
+	"GID": {"0", "100"},
+}
+
+type c12VStep struct {
+	Op   string
+	Args []string // with "<T>", "<user>", "<uid>" still symbolic
+}
+
+func (s c12VStep) text() string {
+	x := c12VOpByName(s.Op).expr
+	for i, a := range s.Args {
+		x = strings.ReplaceAll(x, "{"+strconv.Itoa(i)+"}", c12Quote(a))
+	}
+	return x
+}
+
+type c12VCase struct {
+	Cfg   string // full | bare
+	Route string // W (risor.WithOS) | X (OS in the context)
+	Steps []c12VStep
+}
+
+func (c c12VCase) key() string {
+	var t []string
+	for _, s := range c.Steps {
+		t = append(t, s.text())
+	}
+	return "virtual-os session cfg=" + c.Cfg + " route=" + map[string]string{"W": "WithOS", "X": "context"}[c.Route] + " script: " + strings.Join(t, "; ")
+}
+
+// the two states of the real process a session is evaluated in
+type c12RealState struct {
+	cwd string // below <T>
+	env map[string]string
+}
+
+func (w *c12World) realStates() [2]c12RealState {
+	T := w.T
+	return [2]c12RealState{
+		{"cwd", map[string]string{c12EnvKey: c12RealEnv, "TMPDIR": T + "/tmp1", "HOME": T + "/home1",
+			"XDG_CACHE_HOME": T + "/home1/.cache", "XDG_CONFIG_HOME": T + "/home1/.config"}},
+		{"cwd2", map[string]string{c12EnvKey: "REAL-ENV-VALUE-B", "TMPDIR": T + "/tmp2", "HOME": T + "/home2",
+			"XDG_CACHE_HOME": T + "/home2/.cache", "XDG_CONFIG_HOME": T + "/home2/.config"}},
+	}
+}
+
+// enter puts the real process into state k and returns the function that checks that the code under test
+// left it there (reporting what it changed) and puts the process back into the state of the first part.
+func (w *c12World) enter(k int) func() []string {
+	st := w.realStates()[k]
+	old := map[string]*string{}
+	for key, v := range st.env {
+		if cur, ok := os.LookupEnv(key); ok {
+			c := cur
+			old[key] = &c
+		} else {
+			old[key] = nil
+		}
+		os.Setenv(key, v)
+	}
+	os.Chdir(filepath.Join(w.T, st.cwd))
+	envBefore := os.Environ()
+	sort.Strings(envBefore)
+	return func() []string {
+		var eff []string
+		if wd, _ := os.Getwd(); wd != filepath.Join(w.T, st.cwd) {
+			eff = append(eff, "real working directory changed to "+strings.ReplaceAll(wd, w.T, "<T>"))
+		}
+		envAfter := os.Environ()
+		sort.Strings(envAfter)
+		if strings.Join(envBefore, "\x00") != strings.Join(envAfter, "\x00") {
+			eff = append(eff, "real environment changed: "+c12EnvDiff(envBefore, envAfter))
+			os.Clearenv()
+			for _, kv := range envBefore {
+				if i := strings.Index(kv, "="); i > 0 {
+					os.Setenv(kv[:i], kv[i+1:])
+				}
+			}
+		}
+		for key, v := range old {
+			if v == nil {
+				os.Unsetenv(key)
+			} else {
+				os.Setenv(key, *v)
+			}
+		}
+		os.Chdir(filepath.Join(w.T, "cwd"))
+		return eff
+	}
+}
+
+func c12EnvDiff(a, b []string) string {
+	in := func(l []string, x string) bool {
+		for _, y := range l {
+			if y == x {
+				return true
+			}
+		}
+		return false
+	}
+	var d []string
+	for _, x := range a {
+		if !in(b, x) {
+			d = append(d, "-"+x)
+		}
+	}
+	for _, x := range b {
+		if !in(a, x) {
+			d = append(d, "+"+x)
+		}
+	}
+	return c12_trunc(strings.Join(d, " "), 300)
+}
+
+// realTokens: values of the real process that no answer under a VirtualOS may contain
+func (w *c12World) realTokens() []string {
+	return []string{w.T + "/cwd", w.T + "/tmp1", w.T + "/tmp2", w.T + "/home", "REAL-"}
+}
+
+// recording file system of one mount
+type c12VFS struct {
+	*c12FS
+	target string
+	log    func(string)
+}
+
+func (f *c12VFS) rec(p string) { f.log(f.target + ":" + p) }
+func (f *c12VFS) Create(n string) (ros.File, error) {
+	f.rec(n)
+	return f.c12FS.Create(n)
+}
+func (f *c12VFS) Mkdir(n string, p ros.FileMode) error    { f.rec(n); return f.c12FS.Mkdir(n, p) }
+func (f *c12VFS) MkdirAll(n string, p ros.FileMode) error { f.rec(n); return f.c12FS.MkdirAll(n, p) }
+func (f *c12VFS) Open(n string) (ros.File, error)         { f.rec(n); return f.c12FS.Open(n) }
+func (f *c12VFS) OpenFile(n string, fl int, p ros.FileMode) (ros.File, error) {
+	f.rec(n)
+	return f.c12FS.OpenFile(n, fl, p)
+}
+func (f *c12VFS) ReadFile(n string) ([]byte, error)        { f.rec(n); return f.c12FS.ReadFile(n) }
+func (f *c12VFS) Remove(n string) error                    { f.rec(n); return f.c12FS.Remove(n) }
+func (f *c12VFS) RemoveAll(n string) error                 { f.rec(n); return f.c12FS.RemoveAll(n) }
+func (f *c12VFS) Rename(a, b string) error                 { f.rec(a); f.rec(b); return f.c12FS.Rename(a, b) }
+func (f *c12VFS) Stat(n string) (ros.FileInfo, error)      { f.rec(n); return f.c12FS.Stat(n) }
+func (f *c12VFS) Symlink(a, b string) error                { f.rec(a); f.rec(b); return f.c12FS.Symlink(a, b) }
+func (f *c12VFS) ReadDir(n string) ([]ros.DirEntry, error) { f.rec(n); return f.c12FS.ReadDir(n) }
+func (f *c12VFS) WriteFile(n string, d []byte, p ros.FileMode) error {
+	f.rec(n)
+	return f.c12FS.WriteFile(n, d, p)
+}
+func (f *c12VFS) WalkDir(n string, fn ros.WalkDirFunc) error { f.rec(n); return f.c12FS.WalkDir(n, fn) }
+
+var _ ros.FS = (*c12VFS)(nil)
+
+// the configuration of the VirtualOS of a session, as sent to the model
+type c12VCfg struct {
+	cwd, tmp, home, cache, config, host string
+	env                                 map[string]string
+	pid, uid                            int
+	args                                []string
+	mounts                              []string
+}
+
+func c12VConfig(name string) c12VCfg {
+	if name == "bare" {
+		return c12VCfg{cwd: "/", env: map[string]string{}, mounts: []string{"/", "/mnt"}}
+	}
+	return c12VCfg{cwd: "/work", tmp: "/tmp", home: "/home/u", cache: "/home/u/.cache", config: "/home/u/.config", host: "virt-host",
+		env: map[string]string{c12EnvKey: "VIRT-ENV", "OTHER": "x"}, pid: 424242, uid: 4242, args: []string{"virt-arg", "second"},
+		mounts: []string{"/", "/mnt"}}
+}
+
+func (w *c12World) vsubst(a string) string {
+	a = strings.ReplaceAll(a, "<T>", w.T)
+	a = strings.ReplaceAll(a, "<user>", w.realUser)
+	a = strings.ReplaceAll(a, "<uid>", w.uid)
+	return a
+}
+
+// realLookup: what the real user database answers to a lookup step ("" for other steps and for misses)
+func (w *c12World) realLookup(s c12VStep) string {
+	arg := ""
+	if len(s.Args) > 0 {
+		arg = w.vsubst(s.Args[0])
+	}
+	switch s.Op {
+	case "os.current_user":
+		if u, err := user.Current(); err == nil {
+			return u.HomeDir
+		}
+	case "os.lookup_user":
+		if u, err := user.Lookup(arg); err == nil {
+			return u.HomeDir
+		}
+	case "os.lookup_uid":
+		if u, err := user.LookupId(arg); err == nil {
+			return u.Username
+		}
+	case "os.lookup_group":
+		if g, err := user.LookupGroup(arg); err == nil {
+			return g.Gid
+		}
+	case "os.lookup_gid":
+		if g, err := user.LookupGroupId(arg); err == nil {
+			return g.Name
+		}
+	}
+	return ""
+}
+
+type c12VRun struct {
+	Res     []string   // one answer per step
+	FS      [][]string // per step: "<mount>:<path>" handed to the mounts' file systems
+	Err     string
+	Effects []string
+}
+
+var c12VTempRe = regexp.MustCompile(`(^|[/:])\d+-`)
+
+// c12VRunOnce evaluates the session on the real code with the real process in state `world`.
+func c12VRunOnce(w *c12World, cs c12VCase, world int) (out c12VRun) {
+	w.nextCase()
+	n := len(cs.Steps)
+	out.FS = make([][]string, n)
+	var mu sync.Mutex
+	step := 0
+	logf := func(s string) {
+		mu.Lock()
+		if step >= 0 && step < n {
+			out.FS[step] = append(out.FS[step], s)
+		}
+		mu.Unlock()
+	}
+	T := w.T
+	rootFS := &c12FS{nodes: map[string]*c12Node{"/": {dir: true, mode: fs.ModeDir | 0o755}}}
+	for _, d := range []string{"/work/data", "/work/sub", "/tmp", "/home/u", T + "/dir"} {
+		rootFS.MkdirAll(d, 0o755)
+	}
+	for _, f := range []string{"/work/a.txt", "/work/b.txt", "/work/data/a.txt", "/a.txt", T + "/dir/a.txt"} {
+		rootFS.WriteFile(f, []byte("VIRT-FILE "+strings.ReplaceAll(f, T, "")+"\nline2\n"), 0o644)
+	}
+	mntFS := &c12FS{nodes: map[string]*c12Node{"/": {dir: true, mode: fs.ModeDir | 0o755}}}
+	mntFS.MkdirAll("/in", 0o755)
+	mntFS.WriteFile("/c.txt", []byte("VIRT-MNT-C\n"), 0o644)
+	mntFS.WriteFile("/in/c.txt", []byte("VIRT-MNT-IN-C\n"), 0o644)
+	opts := []ros.Option{ros.WithMounts(map[string]*ros.Mount{
+		"/":    {Source: &c12VFS{c12FS: rootFS, target: "/", log: logf}, Target: "/", Type: "mem"},
+		"/mnt": {Source: &c12VFS{c12FS: mntFS, target: "/mnt", log: logf}, Target: "/mnt", Type: "mem"},
+	})}
+	if cs.Cfg != "bare" {
+		c := c12VConfig(cs.Cfg)
+		opts = append(opts, ros.WithCwd(c.cwd), ros.WithEnvironment(c.env), ros.WithTmp(c.tmp), ros.WithPid(c.pid), ros.WithUid(c.uid),
+			ros.WithHostname(c.host), ros.WithUserCacheDir(c.cache), ros.WithUserConfigDir(c.config), ros.WithUserHomeDir(c.home),
+			ros.WithArgs(c.args), ros.WithStdin(ros.NewBufferFile([]byte("VIRT-STDIN\n"))),
+			ros.WithStdout(ros.NewBufferFile(nil)), ros.WithStderr(ros.NewBufferFile(nil)))
+	}
+	// the VirtualOS is created, like it is used, with the real process in state `world`
+	leave := w.enter(world)
+	vos := ros.NewVirtualOS(context.Background(), opts...)
+
+	var src strings.Builder
+	src.WriteString("res := []\n")
+	for i, s := range cs.Steps {
+		fmt.Fprintf(&src, "vmark(%d)\nres.append(try(func() { return %s }, func(e) { return \"ERR:\" + string(e) }))\n", i, w.vsubst(s.text()))
+	}
+	fmt.Fprintf(&src, "vmark(%d)\nres\n", n)
+	vmark := object.NewBuiltin("vmark", func(ctx context.Context, args ...object.Object) object.Object {
+		if i, ok := args[0].(*object.Int); ok {
+			mu.Lock()
+			step = int(i.Value())
+			mu.Unlock()
+		}
+		return object.Nil
+	})
+	ctx, cancel := context.WithTimeout(context.Background(), 20*time.Second)
+	defer cancel()
+	ropts := []risor.Option{risor.WithGlobal("vmark", vmark)}
+	if cs.Route == "W" {
+		ropts = append(ropts, risor.WithOS(vos))
+	} else {
+		ctx = ros.WithOS(ctx, vos)
+	}
+	res, err := func() (res object.Object, err error) {
+		defer func() {
+			if r := recover(); r != nil {
+				err = fmt.Errorf("panic: %v", r)
+			}
+		}()
+		return risor.Eval(ctx, src.String(), ropts...)
+	}()
+	out.Effects = leave()
+	out.Effects = append(out.Effects, w.realEffects()...)
+	if err != nil {
+		out.Err = err.Error()
+	}
+	if l, ok := res.(*object.List); ok {
+		for _, it := range l.Value() {
+			if s, ok := it.(*object.String); ok {
+				out.Res = append(out.Res, s.Value())
+			} else {
+				out.Res = append(out.Res, it.Inspect())
+			}
+		}
+	} else if err == nil {
+		out.Err = fmt.Sprintf("the script returned %T", res)
+	}
+	for len(out.Res) < n {
+		out.Res = append(out.Res, "<no answer>")
+	}
+	// the random part of a temporary directory's name
+	for i, s := range cs.Steps {
+		if c12VOpByName(s.Op).model == "mkdirtemp" {
+			out.Res[i] = c12VTempRe.ReplaceAllString(out.Res[i], "${1}N-")
+			for j := range out.FS[i] {
+				out.FS[i][j] = c12VTempRe.ReplaceAllString(out.FS[i][j], "${1}N-")
+			}
+		}
+	}
+	return out
+}
+
+// the request line for the model
+func c12VRequest(w *c12World, cs c12VCase) string {
+	c := c12VConfig(cs.Cfg)
+	var env []string
+	for _, k := range sortedKeys(c.env) {
+		env = append(env, Hex(k)+"="+Hex(c.env[k]))
+	}
+	list := func(l []string) string {
+		if len(l) == 0 {
+			return "-"
+		}
+		var h []string
+		for _, x := range l {
+			h = append(h, Hex(x))
+		}
+		return strings.Join(h, ",")
+	}
+	var steps []string
+	for _, s := range cs.Steps {
+		t := c12VOpByName(s.Op).model
+		for _, a := range s.Args {
+			if t != "lookup" { // the model's answer does not depend on who is looked up
+				t += ":" + Hex(w.vsubst(a))
+			}
+		}
+		steps = append(steps, t)
+	}
+	envS := "-"
+	if len(env) > 0 {
+		envS = strings.Join(env, ",")
+	}
+	return strings.Join([]string{"C12", "vsess", Hex(c.cwd), envS, Hex(c.tmp), Hex(c.home), Hex(c.cache), Hex(c.config), Hex(c.host),
+		strconv.Itoa(c.pid), strconv.Itoa(c.uid), list(c.args), list(c.mounts), strings.Join(steps, ";")}, "\t")
+}
+
+type c12VVerdict struct {
+	spec       []string // violations of the Spec on the real results
+	mis        [][3]string
+	nontrivial bool
+}
+
+// c12VCheckModel compares one run with the model's reply; returns (go, model, what) triples.
+func c12VCheckModel(w *c12World, cs c12VCase, run c12VRun, exp []string, world int) (mis [][3]string) {
+	add := func(i int, g, m, what string) {
+		mis = append(mis, [3]string{fmt.Sprintf("step %d %s: %s", i+1, cs.Steps[i].text(), c12_trunc(strings.ReplaceAll(g, w.T, "<T>"), 160)),
+			c12_trunc(strings.ReplaceAll(m, w.T, "<T>"), 160), what + fmt.Sprintf(" (real process state %d)", world+1)})
+	}
+	if run.Err != "" {
+		mis = append(mis, [3]string{"script failed: " + c12_trunc(run.Err, 200), "ok", "the generated session must evaluate"})
+		return
+	}
+	for i := range cs.Steps {
+		op := c12VOpByName(cs.Steps[i].Op)
+		g, x := run.Res[i], exp[i]
+		fsLog := run.FS[i]
+		isErr := strings.HasPrefix(g, "ERR:")
+		if op.model != "file" && op.model != "filecwd" && op.model != "mkdirtemp" && len(fsLog) > 0 {
+			add(i, strings.Join(fsLog, " "), "no file-system call", "paths handed to the mounts vs model")
+		}
+		switch x[0] {
+		case 'n':
+			if g != "nil" {
+				add(i, g, "nil", "answer vs model")
+			}
+		case 's':
+			if m := UnHex(x[1:]); g != m || isErr && !strings.HasPrefix(m, "ERR:") {
+				add(i, g, m, "answer vs model")
+			}
+		case 'i':
+			if g != x[1:] {
+				add(i, g, x[1:], "answer vs model")
+			}
+		case 'l', 'e':
+			var items []string
+			if len(x) > 1 {
+				for _, h := range strings.Split(x[1:], ",") {
+					if x[0] == 'e' {
+						kv := strings.Split(h, "=")
+						items = append(items, UnHex(kv[0])+"="+UnHex(kv[1]))
+					} else {
+						items = append(items, UnHex(h))
+					}
+				}
+			}
+			if x[0] == 'e' {
+				sort.Strings(items)
+			}
+			if m := strings.Join(items, "\n"); g != m {
+				add(i, g, m, "answer vs model")
+			}
+		case 'E':
+			if !isErr {
+				add(i, g, "an error", "answer vs model")
+			}
+		case '*':
+		case 'p':
+			allowed := map[string]bool{}
+			var first, second string
+			for j, it := range strings.Split(x[1:], ",") {
+				v := "!"
+				if it != "!" {
+					tp := strings.Split(it, ":")
+					v = UnHex(tp[0]) + ":" + UnHex(tp[1])
+					allowed[v] = true
+				}
+				if j == 0 {
+					first = v
+				} else if j == 1 {
+					second = v
+				}
+			}
+			for _, l := range fsLog {
+				if !allowed[l] {
+					add(i, l, strings.Join(sortedKeys(allowed), " "), "path handed to a mount's file system vs model (findMount of the virtual cwd)")
+				}
+			}
+			reach := first != "!"
+			if op.both {
+				reach = reach && second != "!" && first[:strings.Index(first, ":")] == second[:strings.Index(second, ":")]
+			}
+			if reach && len(fsLog) == 0 {
+				add(i, "no mount was asked (answer "+g+")", first, "path handed to a mount's file system vs model")
+			}
+			if !reach && !isErr {
+				add(i, g, "an error (no mount serves the path)", "answer vs model")
+			}
+		case 't':
+			tp := strings.Split(x[1:], ":")
+			want := filepath.Join(UnHex(tp[1]), "N-"+UnHex(tp[2]))
+			// (the mount's own Mkdir may fail, e.g. after the script removed the root directory)
+			if g != want && !isErr {
+				add(i, g, want, "answer vs model")
+			}
+			if wantFS := UnHex(tp[0]) + ":N-" + UnHex(tp[2]); strings.Join(fsLog, " ") != wantFS {
+				add(i, strings.Join(fsLog, " "), wantFS, "path handed to a mount's file system vs model")
+			}
+		default:
+			add(i, g, x, "unknown model reply")
+		}
+	}
+	return
+}
+
+// c12VEval runs the session in both states of the real process and evaluates Spec and correspondence.
+func c12VEval(w *c12World, cs c12VCase, reply string) (v c12VVerdict) {
+	var exp []string
+	if strings.HasPrefix(reply, "error") || reply == "" {
+		v.mis = append(v.mis, [3]string{"-", reply, "oracle reply"})
+	} else {
+		exp = strings.Split(reply, "\t")
+		if len(exp) != len(cs.Steps) {
+			v.mis = append(v.mis, [3]string{fmt.Sprintf("%d steps", len(cs.Steps)), reply, "oracle reply"})
+			exp = nil
+		}
+	}
+	for _, x := range exp {
+		if x != "*" {
+			v.nontrivial = true
+		}
+	}
+	var runs [2]c12VRun
+	for k := 0; k < 2; k++ {
+		runs[k] = c12VRunOnce(w, cs, k)
+		if exp != nil {
+			v.mis = append(v.mis, c12VCheckModel(w, cs, runs[k], exp, k)...)
+		}
+	}
+	tokens := w.realTokens()
+	sh := func(s string) string { return c12_trunc(strings.ReplaceAll(s, w.T, "<T>"), 120) }
+	for k := 0; k < 2; k++ {
+		r := runs[k]
+		for _, eff := range r.Effects {
+			v.spec = append(v.spec, fmt.Sprintf("the real process was changed (state %d): %s", k+1, eff))
+		}
+		if strings.Contains(r.Err, "panic") {
+			v.mis = append(v.mis, [3]string{c12_trunc(r.Err, 200), "no panic", "panic inside risor"})
+		}
+		for i := range cs.Steps {
+			where := fmt.Sprintf("step %d %s (real process state %d)", i+1, cs.Steps[i].text(), k+1)
+			for _, t := range tokens {
+				if strings.Contains(r.Res[i], t) {
+					v.spec = append(v.spec, where+" answered "+strconv.Quote(sh(r.Res[i]))+", which contains a value of the real process ("+sh(t)+"…)")
+					break
+				}
+			}
+			for _, l := range r.FS[i] {
+				for _, t := range tokens {
+					if strings.Contains(l, t) {
+						v.spec = append(v.spec, where+" handed the mount's file system the path "+strconv.Quote(sh(l))+", built from a value of the real process ("+sh(t)+"…)")
+						break
+					}
+				}
+			}
+			// process-level values cannot differ between the two states; a real one shows as such
+			if exp != nil && len(exp[i]) > 0 && (exp[i][0] == 'i' || exp[i][0] == 's') {
+				m := exp[i][1:]
+				if exp[i][0] == 's' {
+					m = UnHex(m)
+				}
+				g := r.Res[i]
+				op := cs.Steps[i].Op
+				if g != m && (op == "os.getpid" && g == w.realPid || op == "os.getuid" && g == w.uid || op == "os.hostname" && g == w.realHost && g != "") {
+					v.spec = append(v.spec, where+" answered "+strconv.Quote(g)+", the value of the real process (configured: "+strconv.Quote(m)+")")
+				}
+			}
+			if real := w.realLookup(cs.Steps[i]); real != "" && r.Res[i] == real {
+				v.spec = append(v.spec, where+" answered "+strconv.Quote(sh(r.Res[i]))+", the entry of the real user database (no user or group is configured in the VirtualOS)")
+			}
+		}
+	}
+	for i := range cs.Steps {
+		a, b := runs[0], runs[1]
+		if a.Res[i] != b.Res[i] {
+			v.spec = append(v.spec, fmt.Sprintf("step %d %s answers %s with the real process in <T>/cwd and %s with the real process in <T>/cwd2: the answer depends on the state of the real process",
+				i+1, cs.Steps[i].text(), strconv.Quote(sh(a.Res[i])), strconv.Quote(sh(b.Res[i]))))
+		}
+		if strings.Join(a.FS[i], " ") != strings.Join(b.FS[i], " ") {
+			v.spec = append(v.spec, fmt.Sprintf("step %d %s hands the mounts %s with the real process in <T>/cwd and %s in <T>/cwd2",
+				i+1, cs.Steps[i].text(), strconv.Quote(sh(strings.Join(a.FS[i], " "))), strconv.Quote(sh(strings.Join(b.FS[i], " ")))))
+		}
+	}
+	return v
+}
+
+func c12VGenArgs(r *RNG, op *c12VOp) []string {
+	var a []string
+	for _, k := range op.args {
+		p := c12VPools[k]
+		a = append(a, p[r.Intn(len(p))])
+	}
+	return a
+}
+
+func c12RunVirtualSessions(e *Env, w *c12World) {
+	var cases []c12VCase
+	var changers, observers []*c12VOp
+	for i := range c12VOps {
+		if c12VOps[i].change {
+			changers = append(changers, &c12VOps[i])
+		} else {
+			observers = append(observers, &c12VOps[i])
+		}
+	}
+	// every combination of the pools of an operation
+	var allArgs func(op *c12VOp) [][]string
+	allArgs = func(op *c12VOp) [][]string {
+		out := [][]string{{}}
+		for _, k := range op.args {
+			var nx [][]string
+			for _, pre := range out {
+				for _, v := range c12VPools[k] {
+					nx = append(nx, append(append([]string{}, pre...), v))
+				}
+			}
+			out = nx
+		}
+		return out
+	}
+	// directed 1: every state-changing operation with every argument, followed by the observers of that state
+	probesFor := func(ch *c12VOp, args []string) []c12VStep {
+		if ch.model == "chdir" {
+			return []c12VStep{{"os.getwd", nil}, {"filepath.abs", []string{"notes.txt"}}, {"os.read_file", []string{"a.txt"}},
+				{"os.write_file", []string{"new.txt"}}, {"os.read_dir0", nil}, {"os.stat", []string{"/work/data/a.txt"}}, {"os.mkdir_temp", []string{"", "pat"}}}
+		}
+		return []c12VStep{{"os.getenv", []string{args[0]}}, {"getenv", []string{args[0]}}, {"os.environ", nil}}
+	}
+	n := 0
+	for _, cfg := range []string{"full", "bare"} {
+		for _, ch := range changers {
+			for _, args := range allArgs(ch) {
+				for _, pr := range probesFor(ch, args) {
+					n++
+					cases = append(cases, c12VCase{Cfg: cfg, Route: []string{"W", "X"}[n%2], Steps: []c12VStep{{ch.name, args}, pr}})
+				}
+			}
+		}
+	}
+	// directed 2: every observer alone, with every argument (pairs of paths: a sample in the quick tier)
+	for _, cfg := range []string{"full", "bare"} {
+		for _, ob := range observers {
+			for j, args := range allArgs(ob) {
+				if len(ob.args) == 2 && e.Quick && j%7 != 0 {
+					continue
+				}
+				n++
+				cases = append(cases, c12VCase{Cfg: cfg, Route: []string{"W", "X"}[n%2], Steps: []c12VStep{{ob.name, args}}})
+			}
+		}
+	}
+	// random sessions
+	rng := e.Rng.Fork()
+	nr := 2500
+	if !e.Quick {
+		nr = 60000
+	}
+	for i := 0; i < nr; i++ {
+		cs := c12VCase{Cfg: []string{"full", "full", "bare"}[rng.Intn(3)], Route: []string{"W", "X"}[rng.Intn(2)]}
+		for j, l := 0, 2+rng.Intn(6); j < l; j++ {
+			var op *c12VOp
+			if rng.Chance(40) {
+				op = changers[rng.Intn(len(changers))]
+			} else {
+				op = observers[rng.Intn(len(observers))]
+			}
+			cs.Steps = append(cs.Steps, c12VStep{op.name, c12VGenArgs(rng, op)})
+		}
+		cases = append(cases, cs)
+	}
+
+	reqs := make([]string, len(cases))
+	for i, c := range cases {
+		reqs[i] = c12VRequest(w, c)
+	}
+	replies := e.O.AskBatch(reqs)
+	shrunk := 0
+	for i, cs := range cases {
+		v := c12VEval(w, cs, replies[i])
+		key := cs.key()
+		e.R.Case(key, v.nontrivial)
+		e.R.H("vsession_cfg", cs.Cfg)
+		e.R.H("vsession_route", map[string]string{"W": "risor.WithOS", "X": "OS in the context"}[cs.Route])
+		e.R.H("vsession_steps", strconv.Itoa(len(cs.Steps)))
+		changed := false
+		for _, s := range cs.Steps {
+			op := c12VOpByName(s.Op)
+			e.R.H("vsession_op", s.Op)
+			if op.change {
+				changed = true
+			} else if changed {
+				e.R.H("vsession_observer_after_state_change", s.Op)
+			}
+			for _, a := range s.Args {
+				if (op.model == "chdir" || op.model == "file" || op.model == "abs") && a != "" {
+					e.R.H("vsession_path_shape", map[bool]string{true: "absolute", false: "relative"}[strings.HasPrefix(a, "/") || strings.HasPrefix(a, "<T>")])
+				}
+			}
+		}
+		for _, m := range v.mis {
+			e.R.Mismatch(key, m[0], m[1], "VirtualOS session: "+m[2])
+		}
+		if len(v.spec) == 0 {
+			e.R.H("vsession_spec", "holds")
+			continue
+		}
+		e.R.H("vsession_spec", "violated")
+		// shrink: drop steps as long as the Spec is still violated
+		if shrunk < 5 && len(cs.Steps) > 2 {
+			shrunk++
+			for again := true; again; {
+				again = false
+				for j := 0; j < len(cs.Steps) && len(cs.Steps) > 1; j++ {
+					t := c12VCase{Cfg: cs.Cfg, Route: cs.Route}
+					t.Steps = append(append(t.Steps, cs.Steps[:j]...), cs.Steps[j+1:]...)
+					if tv := c12VEval(w, t, e.O.Ask(strings.Split(c12VRequest(w, t), "\t")...)); len(tv.spec) > 0 {
+						cs, v, again = t, tv, true
+						break
+					}
+				}
+			}
+			key = cs.key()
+		}
+		e.R.Spec(key, c12_trunc(strings.Join(v.spec, "; "), 1500), "")
+	}
+	e.R.Note("%d VirtualOS sessions, each evaluated with the real process in <T>/cwd and in <T>/cwd2 (different environment, TMPDIR, HOME)", len(cases))
 }
